@@ -466,7 +466,7 @@ def eval_cases_concrete(c: Contract, a: NS, kind: str, value: Any) -> tuple[bool
 def replay_concrete(c: Contract, vals: dict[str, Any], model: Any, choice: dict[str, int]) -> dict[str, Any]:
     ev = _mk_eval(model)
     if any(hasattr(x, "register") for x in vals.values()):
-        return {"confirmed": False, "note": "inputs are abstract (symbolic calendar): no concrete replay; the failed obligation and solver model are the evidence"}
+        return _replay_abstract(c, vals, ev)
     try:
         cvals = _enumify(c, {k: concretize(v, ev, live=True) for k, v in vals.items()})
         kind, value = call_real(c, cvals)
@@ -476,6 +476,37 @@ def replay_concrete(c: Contract, vals: dict[str, Any], model: Any, choice: dict[
         return {"confirmed": not ok, "observed": f"{kind}: {_short(value)}", "why": why}
     except Exception as ex:  # noqa: BLE001
         return {"confirmed": False, "note": f"replay error {type(ex).__name__}: {ex}"}
+
+
+def _replay_abstract(c: Contract, vals: dict[str, Any], ev: Any) -> dict[str, Any]:
+    """The failed VC is about a symbolic calendar.  Look for a real calendar and real dates on which the real code
+    violates the contract: the model's calendar ordinal first, then every other calendar, with the model's field
+    values clamped into that calendar's valid range."""
+    gens = dict(c.ghosts + c.args + c.kwargs)
+    cal_names = [n for n, g in gens.items() if hasattr(g, "realize") and hasattr(vals.get(n), "register")]
+    if not all(hasattr(g, "realize") or not isinstance(vals.get(n), SObj) for n, g in gens.items()):
+        return {"confirmed": False, "note": "inputs are abstract (symbolic calendar) and have no concrete realisation"}
+    tried = 0
+    first_ord = {n: ev(vals[n].ordinal) for n in cal_names}
+    candidates = [dict(first_ord)] + [{n: o for n in cal_names} for o in range(19)]
+    for over in candidates:
+        ctx: dict[str, Any] = {"ordinal_override": over}
+        try:
+            cvals: dict[str, Any] = {}
+            for n, g in c.ghosts + c.args + c.kwargs:
+                if hasattr(g, "realize"):
+                    cvals[n] = g.realize(vals[n], ev, ctx)
+                else:
+                    cvals[n] = concretize(vals[n], ev, live=True)
+            cvals = _enumify(c, cvals)
+            tried += 1
+            kind, value = call_real(c, cvals)
+            ok, why = eval_cases_concrete(c, NS(cvals), kind, value)
+            if not ok:
+                return {"confirmed": True, "observed": f"{kind}: {_short(value)}", "why": why, "realised_inputs": {k: _short(v) for k, v in cvals.items()}, "calendar_ordinals": over}
+        except Exception:  # noqa: BLE001
+            continue
+    return {"confirmed": False, "note": f"symbolic-calendar counterexample did not reproduce on {tried} real calendars with the model's field values"}
 
 
 def _enumify(c: Contract, cvals: dict[str, Any]) -> dict[str, Any]:
